@@ -430,13 +430,117 @@ def extract_deck(g):
     g.strings('deckQueryRead', rd[0])
 
 
+def page_index_expr(e, base_name, size_name, what):
+    """`int((addr - BASE) / SIZE)` -> (BASE text, SIZE text); anything else is a translation failure"""
+    ok = (isinstance(e, ast.Call) and ast.unparse(e.func) == 'int' and len(e.args) == 1 and isinstance(e.args[0], ast.BinOp)
+          and isinstance(e.args[0].op, ast.Div) and isinstance(e.args[0].left, ast.BinOp) and isinstance(e.args[0].left.op, ast.Sub)
+          and ast.unparse(e.args[0].left.left) == 'addr' and ast.unparse(e.args[0].left.right) == base_name
+          and ast.unparse(e.args[0].right) == size_name)
+    X.expect(ok, '%s: page index expression changed: %s' % (what, ast.unparse(e)))
+
+
+def extract_loco(g):
+    tree = X.parse('cflib/crazyflie/mem/loco_memory.py')
+    sc = one_struct(X.find(tree, 'AnchorData.set_from_mem_data'), 'AnchorData.set_from_mem_data', n=1)
+    emit_struct(g, 'locoAnchor', sc[0])
+    g.strings('locoAnchorTargets', unpack_targets(X.find(tree, 'AnchorData.set_from_mem_data'))[0])
+    lm = X.find(tree, 'LocoMemory')
+    c = class_consts_eval(lm)
+    names = ['MEM_LOCO_INFO', 'MEM_LOCO_INFO_LEN', 'MEM_LOCO_ANCHOR_BASE', 'MEM_LOCO_ANCHOR_PAGE_SIZE', 'MEM_LOCO_PAGE_LEN']
+    for k, v in zip(['locoInfo', 'locoInfoLen', 'locoAnchorBase', 'locoPageSize', 'locoPageLen'], need(c, names, 'LocoMemory')):
+        g.nat(k, v)
+    nd = X.find(lm, 'new_data')
+    g.strings('locoNewDataCompares', X.compares(nd))
+    a = assigns(nd)
+    for k in ('self.nr_of_anchors', 'page', 'next_page', 'self.anchor_data'):
+        X.expect(k in a, 'LocoMemory.new_data: assignment to %s not found' % k)
+    page_index_expr(a['page'], 'LocoMemory.MEM_LOCO_ANCHOR_BASE', 'LocoMemory.MEM_LOCO_ANCHOR_PAGE_SIZE', 'LocoMemory.new_data')
+    g.raw('def locoPageOf (addr : Nat) : Nat := (addr - locoAnchorBase) / locoPageSize')
+    g.strings('locoNewDataAssigns', [ast.unparse(a['self.nr_of_anchors']), ast.unparse(a['next_page']), ast.unparse(a['self.anchor_data'])])
+    g.strings('locoSetCall', [ast.unparse(c2) for c2 in ast.walk(nd) if isinstance(c2, ast.Call) and ast.unparse(c2.func).endswith('set_from_mem_data')])
+    g.strings('locoRequestCalls', [x[0] for x in call_args(nd, 'self._request_page')])
+    rp = X.find(lm, '_request_page')
+    a = assigns(rp)
+    env = {'LocoMemory.MEM_LOCO_ANCHOR_BASE': 'locoAnchorBase', 'LocoMemory.MEM_LOCO_ANCHOR_PAGE_SIZE': 'locoPageSize', 'page': 'page'}
+    g.raw('def locoPageAddr (page : Nat) : Nat := ' + to_lean(a['addr'], env))
+    g.strings('locoRequestRead', call_args(rp, 'self.mem_handler.read')[0])
+    g.strings('locoUpdateRead', call_args(X.find(lm, 'update'), 'self.mem_handler.read')[0])
+    # version 2
+    tree = X.parse('cflib/crazyflie/mem/loco_memory_2.py')
+    sc = one_struct(X.find(tree, 'AnchorData2.set_from_mem_data'), 'AnchorData2.set_from_mem_data', n=1)
+    emit_struct(g, 'loco2Anchor', sc[0])
+    g.strings('loco2AnchorTargets', unpack_targets(X.find(tree, 'AnchorData2.set_from_mem_data'))[0])
+    lm = X.find(tree, 'LocoMemory2')
+    c = class_consts_eval(lm)
+    names = ['MAX_NR_OF_ANCHORS', 'ID_LIST_LEN', 'ADR_ID_LIST', 'ADR_ACTIVE_ID_LIST', 'ADR_ANCHOR_BASE', 'ANCHOR_PAGE_SIZE', 'PAGE_LEN']
+    for k, v in zip(['loco2MaxAnchors', 'loco2IdListLen', 'loco2AdrIdList', 'loco2AdrActiveIdList', 'loco2AnchorBase', 'loco2PageSize', 'loco2PageLen'],
+                    need(c, names, 'LocoMemory2')):
+        g.nat(k, v)
+    nd = X.find(lm, 'new_data')
+    g.strings('loco2NewDataCompares', X.compares(nd))
+    a = assigns(nd)
+    page_index_expr(a['id'], 'LocoMemory2.ADR_ANCHOR_BASE', 'LocoMemory2.ANCHOR_PAGE_SIZE', 'LocoMemory2.new_data')
+    g.raw('def loco2IdOf (addr : Nat) : Nat := (addr - loco2AnchorBase) / loco2PageSize')
+    for fn, nm in (('_handle_id_list_data', 'loco2IdList'), ('_handle_active_id_list_data', 'loco2ActiveIdList')):
+        f = X.find(lm, fn)
+        loops = [n for n in ast.walk(f) if isinstance(n, ast.For)]
+        X.expect(len(loops) == 1, 'LocoMemory2.%s: expected one for loop' % fn)
+        g.strings(nm + 'Src', [ast.unparse(n) for n in f.body if isinstance(n, (ast.Assign, ast.For))])
+    ha = X.find(lm, '_handle_anchor_data')
+    g.strings('loco2AnchorSrc', [ast.unparse(n) for n in ha.body if isinstance(n, (ast.Assign, ast.AugAssign, ast.Expr))])
+    g.strings('loco2AnchorCompares', X.compares(ha))
+    g.strings('loco2AnchorRequests', [x[0] for x in call_args(ha, 'self._request_page')])
+    ud = X.find(lm, 'update_data')
+    g.strings('loco2UpdateDataTests', [ast.unparse(n.test) for n in ast.walk(ud) if isinstance(n, ast.If)])
+    g.strings('loco2UpdateDataRequests', [x[0] for x in call_args(ud, 'self._request_page')])
+    rp = X.find(lm, '_request_page')
+    a = assigns(rp)
+    env = {'LocoMemory2.ADR_ANCHOR_BASE': 'loco2AnchorBase', 'LocoMemory2.ANCHOR_PAGE_SIZE': 'loco2PageSize', 'page': 'page'}
+    g.raw('def loco2PageAddr (page : Nat) : Nat := ' + to_lean(a['addr'], env))
+    g.strings('loco2RequestRead', call_args(rp, 'self.mem_handler.read')[0])
+    g.strings('loco2IdListRead', call_args(X.find(lm, 'update_id_list'), 'self.mem_handler.read')[0])
+    g.strings('loco2ActiveIdListRead', call_args(X.find(lm, 'update_active_id_list'), 'self.mem_handler.read')[0])
+
+
+def extract_traj_led(g):
+    tree = X.parse('cflib/crazyflie/mem/trajectory_memory.py')
+    pk = X.find(tree, 'Poly4D.pack')
+    sc = one_struct(pk, 'Poly4D.pack', n=5)
+    fm = [c['fmt'] for c in sc]
+    X.expect(all(f is not None for f in fm), 'Poly4D.pack: non-literal struct format')
+    g.strings('polyFmts', fm)
+    g.strings('polyArgs', [','.join(c['args']) for c in sc])
+    g.strings('polyAug', [ast.unparse(n) for n in sorted((m for m in ast.walk(pk) if isinstance(m, ast.AugAssign)), key=lambda m: m.lineno)])
+    wd = X.find(X.find(tree, 'TrajectoryMemory'), 'write_data')
+    g.strings('trajWriteCall', call_args(wd, 'self.mem_handler.write')[0])
+    g.strings('trajWriteAug', [ast.unparse(n) for n in ast.walk(wd) if isinstance(n, ast.AugAssign)])
+    tree = X.parse('cflib/crazyflie/mem/led_timings_driver_memory.py')
+    wd = X.find(tree, 'LEDTimingsDriverMemory.write_data')
+    a = assigns(wd)
+    for k in ('R5', 'G6', 'B5', 'led', 'extra'):
+        X.expect(k in a, 'LEDTimingsDriverMemory.write_data: %s = ... not found' % k)
+        g.string('led' + k.capitalize() + 'Src', ast.unparse(a[k]))
+    for comp, key in (('R5', 'r'), ('G6', 'g'), ('B5', 'b')):
+        g.raw('def led%s (c : Nat) : Nat := %s' % (comp, to_lean(a[comp], {"int(timing['rgb']['%s']) & 255" % key: 'c'})))
+    g.raw('def ledWord (R5 G6 B5 : Nat) : Nat := ' + to_lean(a['led'], {'R5': 'R5', 'G6': 'G6', 'B5': 'B5'}))
+    g.raw('def ledExtra (leds fade rotate : Nat) : Nat := ' + to_lean(a['extra'], {"timing['leds']": 'leds', "timing['fade']": 'fade', "timing['rotate']": 'rotate'}))
+    ifs = [n for n in ast.walk(wd) if isinstance(n, ast.If) and 'led' in ast.unparse(n.test)]
+    X.expect(len(ifs) == 1, 'LEDTimingsDriverMemory.write_data: record filter not found')
+    g.string('ledFilterSrc', ast.unparse(ifs[0].test))
+    g.strings('ledAug', [ast.unparse(n) for n in sorted((m for m in ast.walk(wd) if isinstance(m, ast.AugAssign)), key=lambda m: m.lineno)])
+    g.strings('ledWriteCall', call_args(wd, 'self.mem_handler.write')[0])
+
+
 def extract(ctx):
     g = X.GenFile(PID, ['cflib/crazyflie/mem/i2c_element.py', 'cflib/crazyflie/mem/ow_element.py', 'cflib/crazyflie/mem/lighthouse_memory.py',
-                          'cflib/crazyflie/mem/deck_memory.py'])
+                          'cflib/crazyflie/mem/deck_memory.py', 'cflib/crazyflie/mem/loco_memory.py', 'cflib/crazyflie/mem/loco_memory_2.py',
+                          'cflib/crazyflie/mem/trajectory_memory.py', 'cflib/crazyflie/mem/led_timings_driver_memory.py'])
     extract_i2c(g)
     extract_ow(g)
     extract_lh(g)
     extract_deck(g)
+    extract_loco(g)
+    extract_traj_led(g)
     return {'C14.lean': g.render()}
 
 
@@ -1024,7 +1128,146 @@ def gen_deck(ctx, cases):
         add(mem, kind)
 
 
-GENERATORS = [gen_i2c, gen_ow, gen_lh, gen_deck]
+# ---- loco, trajectory, LED timings -------------------------------------------------------------------------
+def show_anchor(a):
+    return '%d.%d.%d.%d' % (f32bits(a.position[0]), f32bits(a.position[1]), f32bits(a.position[2]), 1 if a.is_valid else 0)
+
+
+def real_loco(mem):
+    _quiet()
+    from cflib.crazyflie.mem.loco_memory import LocoMemory
+    h = FakeMemHandler(mem)
+    lm = LocoMemory(6, 0x11, 0x10000, h)
+    called = []
+    try:
+        lm.update(called.append)
+        h.run()
+    except Exception as e:
+        return 'err ' + exc_enum(e)
+    if len(called) != 1:
+        return 'other called=%d' % len(called)
+    return 'ok n=%d a=%s V=%d' % (lm.nr_of_anchors, ';'.join(show_anchor(a) for a in lm.anchor_data) or '-', 1 if lm.valid else 0)
+
+
+def real_loco2(mem):
+    _quiet()
+    from cflib.crazyflie.mem.loco_memory_2 import LocoMemory2
+    h = FakeMemHandler(mem)
+    lm = LocoMemory2(7, 0x13, 0x10000, h)
+    called = []
+    try:
+        lm.update_id_list(lambda m: called.append('ids'))
+        h.run()
+        lm.update_active_id_list(lambda m: called.append('act'))
+        h.run()
+        lm.update_data(lambda m: called.append('data'))
+        h.run()
+    except Exception as e:
+        return 'err ' + exc_enum(e)
+    want = ['ids', 'act'] + (['data'] if lm.nr_of_anchors > 0 else [])       # update_data does nothing without anchors
+    if called != want or not lm.ids_valid or not lm.active_ids_valid or (lm.nr_of_anchors > 0 and not lm.data_valid):
+        return 'other called=%r' % (called,)
+    nl = lambda l: ','.join(str(x) for x in l) or '-'
+    return 'ok ids=%s act=%s data=%s' % (nl(lm.anchor_ids), nl(lm.active_anchor_ids),
+                                         ';'.join('%d:%s' % (k, show_anchor(a)) for k, a in lm.anchor_data.items()) or '-')
+
+
+def real_traj(polys):
+    _quiet()
+    from cflib.crazyflie.mem.trajectory_memory import Poly4D, TrajectoryMemory
+    h = FakeMemHandler()
+    tm = TrajectoryMemory(8, 0x12, 0x1000, h)
+    try:
+        tr = []
+        for x, y, z, yaw, d in polys:
+            p = Poly4D(bits_f32(d))
+            p.x, p.y, p.z, p.yaw = (Poly4D.Poly([bits_f32(v) for v in c]) for c in (x, y, z, yaw))
+            tr.append(p)
+        tm.trajectory = tr
+        n = tm.write_data(lambda *a: None)
+    except Exception as e:
+        return 'err ' + exc_enum(e)
+    if len(h.writes) != 1 or h.writes[0][0] != 0 or n != len(h.writes[0][1]):
+        return 'other writes=%r' % (h.writes,)
+    return 'ok ' + hexs(h.writes[0][1])
+
+
+def real_led(ts):
+    _quiet()
+    from cflib.crazyflie.mem.led_timings_driver_memory import LEDTimingsDriverMemory
+    h = FakeMemHandler()
+    lt = LEDTimingsDriverMemory(9, 0x17, 0x1000, h)
+    try:
+        for (t, r, g, b, leds, fade, rot) in ts:
+            lt.add(time=t, rgb={'r': r, 'g': g, 'b': b}, leds=leds, fade=(bool(fade) if fade in (0, 1) else fade), rotate=rot)
+        lt.write_data(None)
+    except Exception as e:
+        return 'err ' + exc_enum(e)
+    if len(h.writes) != 1 or h.writes[0][0] != 0:
+        return 'other writes=%r' % (h.writes,)
+    return 'ok ' + hexs(h.writes[0][1])
+
+
+def anchor_bytes(rng):
+    return b''.join(struct.pack('<I', rnd_f32(rng)) for _ in range(3)) + bytes([rng.choice([0, 1, 1, 2, 0xFF])])
+
+
+def gen_loco(ctx, cases):
+    rng = ctx.rng
+    thorough = ctx.tier == 'thorough'
+    for t in range(60 if thorough else 18):
+        n = rng.choice([0, 1, 2, 3, 8, 16]) if t > 2 else [255, 17, 1][t]
+        mem = bytearray(0x1000 + 0x100 * max(n, 1))
+        mem[0] = n
+        for i in range(n):
+            mem[0x1000 + 0x100 * i:0x1000 + 0x100 * i + 13] = anchor_bytes(rng)
+        if rng.random() < 0.15 and n:
+            mem = mem[:0x1000 + 0x100 * (n - 1) + rng.choice([0, 5, 12])]       # the last page cannot be read completely
+        if t == 5:
+            mem = bytearray()
+        cases.append(('loco', 'loco ' + hexs(mem), (lambda m=bytes(mem): real_loco(m)), canon_f32_fields,
+                      {'op': 'loco', 'n': n, 'len': len(mem)}, ('loco', bytes(mem))))
+    for t in range(60 if thorough else 18):
+        n = rng.choice([0, 1, 2, 5, 16, 16, 17, 40])
+        ids = [rng.randrange(32) for _ in range(16)]
+        if rng.random() < 0.6:
+            ids = rng.sample(range(32), 16)
+        act = [rng.randrange(32) for _ in range(16)]
+        mem = bytearray(0x2000 + 0x100 * 32)
+        mem[0:17] = bytes([n] + ids)
+        mem[0x1000:0x1011] = bytes([rng.choice([0, 3, 16, 17])] + act)
+        for i in range(32):
+            mem[0x2000 + 0x100 * i:0x2000 + 0x100 * i + 13] = anchor_bytes(rng)
+        if rng.random() < 0.1:
+            mem = mem[:0x2000 + 0x100 * rng.randrange(32) + 7]
+        cases.append(('loco2', 'loco2 ' + hexs(mem), (lambda m=bytes(mem): real_loco2(m)), canon_f32_fields,
+                      {'op': 'loco2', 'n': n, 'ids': ids[:min(n, 16)], 'len': len(mem)}, ('loco2', bytes(mem))))
+    dots = lambda l: '.'.join(str(x) for x in l) or '-'
+    for t in range(150 if thorough else 40):
+        polys = []
+        for _ in range(rng.choice([0, 1, 1, 2, 5])):
+            ln = lambda: 8 if rng.random() < 0.93 else rng.choice([0, 7, 9])
+            polys.append(tuple([rnd_f32(rng) for _ in range(ln())] for _ in range(4)) + (rnd_f32(rng),))
+        line = 'traj ' + (';'.join('/'.join([dots(c) for c in p[:4]] + [str(p[4])]) for p in polys) or '-')
+        cases.append(('traj', line, (lambda p=polys: real_traj(p)), None, {'op': 'traj', 'pieces': len(polys), 'lens': [[len(c) for c in p[:4]] for p in polys]},
+                      ('traj', line)))
+    for t in range(300 if thorough else 80):
+        ts = []
+        for _ in range(rng.choice([0, 1, 2, 4, 10])):
+            z = rng.random() < 0.15
+            pick = lambda hi, big: 0 if z else (rng.choice(big) if rng.random() < 0.15 else rng.randrange(hi))
+            ts.append((pick(256, [256, 511, 1000]), pick(256, [256, 300, 1023]), pick(256, [256, 300]), pick(256, [256, 65535]),
+                       pick(16, [16, 255]), pick(2, [2, 3]), pick(8, [8, 255])))
+        line = 'led ' + (';'.join('.'.join(str(x) for x in t) for t in ts) or '-')
+        cases.append(('led', line, (lambda ts=ts: real_led(ts)), None, {'op': 'led', 'timings': ts[:4], 'n': len(ts)}, ('led', line)))
+    # the colour components: every value once
+    for c in range(0, 256, 1 if thorough else 5):
+        ts = [(1, c, c, c, 0, 0, 0)]
+        line = 'led ' + ';'.join('.'.join(str(x) for x in t) for t in ts)
+        cases.append(('led', line, (lambda ts=ts: real_led(ts)), None, {'op': 'led', 'colour': c}, ('led', line)))
+
+
+GENERATORS = [gen_i2c, gen_ow, gen_lh, gen_deck, gen_loco]
 
 
 def correspond(ctx):
